@@ -69,7 +69,7 @@ def evaluate(ctx, P, env, cases, with_model=True):
             rec["why"] = why
             rec["sig"] = P.signature(c, co, why) if hasattr(P, "signature") else "generic"
             concrete.append(rec)
-        elif m_outs is not None and m_outs[i] != canon(co):
+        elif m_outs is not None and "c-only" not in c.tags and m_outs[i] != canon(co):
             rec["why"] = "model and implementation disagree"
             corr.append(rec)
     return concrete, corr, {"evaluations": len(cases)}
